@@ -309,8 +309,8 @@ def kani_cmd(target, harness_full, jobs, json_out, harness_timeout, playback=Fal
 def parse_kani_json(path):
     d = json.load(open(path))
     res = {}
-    stats = {x["harness_id"]: x.get("cbmc_stats", {}) for x in d.get("cbmc", [])}
-    pd = {x["harness_id"]: x.get("property_details", {}) for x in d.get("property_details", [])}
+    stats = {x["harness_id"]: (x.get("cbmc_stats") or {}) for x in d.get("cbmc", [])}
+    pd = {x["harness_id"]: (x.get("property_details") or {}) for x in d.get("property_details", [])}
     ed = {x["harness_id"]: x for x in d.get("error_details", [])}
     for r in d.get("verification_results", {}).get("results", []):
         hid = r["harness_id"]
